@@ -64,6 +64,36 @@ func pickStr(r *simrt.RNG, l []string) string {
 	return l[r.Intn(len(l))]
 }
 
+// kindWeights biases the choice of kinds towards operations that touch shared library state
+// few other operations touch (see profileKinds): that is where tasks working on independent
+// values can influence each other. nil = uniform.
+var kindWeights map[string][]int
+
+func kindsOf(k string) []string {
+	switch k {
+	case "lib":
+		return hlib.LibKinds()
+	case "parse":
+		return hlib.WireKinds()
+	case "pkt":
+		return hlib.PacketKinds()
+	case "dec":
+		return hlib.DecoderKinds()
+	}
+	return nil
+}
+
+func pickKind(r *simrt.RNG, k string) string {
+	l := kindsOf(k)
+	if len(l) == 0 {
+		return ""
+	}
+	if w := kindWeights[k]; len(w) == len(l) && r.Chance(0.6) {
+		return l[r.Pick(w...)]
+	}
+	return l[r.Intn(len(l))]
+}
+
 func randomCase(r *simrt.RNG, s string) string {
 	switch r.Pick(50, 20, 30) {
 	case 0:
@@ -101,13 +131,13 @@ func genOp1(r *simrt.RNG, weights []int) Op {
 		if r.Chance(0.06) {
 			return Op{K: "dhcp0", S: r.Uint64(), A: r.Intn(6)}
 		}
-		return Op{K: "lib", N: pickStr(r, hlib.LibKinds()), S: r.Uint64()}
+		return Op{K: "lib", N: pickKind(r, "lib"), S: r.Uint64()}
 	case 3:
-		return Op{K: "parse", N: pickStr(r, hlib.WireKinds()), S: r.Uint64(), A: []int{0, 64, 300, 2000}[r.Pick(40, 30, 25, 5)]}
+		return Op{K: "parse", N: pickKind(r, "parse"), S: r.Uint64(), A: []int{0, 64, 300, 2000}[r.Pick(40, 30, 25, 5)]}
 	case 4:
-		return Op{K: "pkt", N: pickStr(r, hlib.PacketKinds()), S: r.Uint64(), A: []int{0, 100, 600}[r.Intn(3)]}
+		return Op{K: "pkt", N: pickKind(r, "pkt"), S: r.Uint64(), A: []int{0, 100, 600}[r.Intn(3)]}
 	case 5:
-		return Op{K: "dec", N: pickStr(r, hlib.DecoderKinds()), S: r.Uint64(), A: []int{0, 100, 600}[r.Intn(3)]}
+		return Op{K: "dec", N: pickKind(r, "dec"), S: r.Uint64(), A: []int{0, 100, 600}[r.Intn(3)]}
 	case 6:
 		e := registry[r.Intn(len(registry))]
 		return Op{K: "lookup", N: randomCase(r, e.name), A: r.Intn(2)}
@@ -128,12 +158,79 @@ func horizonOf(sc *Scenario) int {
 	return h
 }
 
+// freshChild is set in child processes that execute exactly one run with the library's
+// package-level state as the Go initialisers left it.
+var freshChild bool
+
+// genFirstUse: what a fresh process is for - several tasks doing the same kind of thing as
+// their very first operation, so that first-use paths (lazy initialisation, first draw, first
+// lookup) are entered by two tasks at once. Never runs the reference first.
+func genFirstUse(r *simrt.RNG, sc *Scenario) {
+	sc.Class = "first-use"
+	n := []int{2, 2, 3, 4, 6, 8}[r.Intn(6)]
+	tmpl := genOp(r, []int{30, 10, 25, 20, 3, 3, 9, 0, 0})
+	reps := 1 + r.Intn(3)
+	for i := 0; i < n; i++ {
+		var p TaskProg
+		for j := 0; j < reps; j++ {
+			op := tmpl
+			if op.S != 0 {
+				op.S = r.Uint64()
+			}
+			p.Ops = append(p.Ops, op)
+		}
+		// a little variety behind the common first operation
+		for j := r.Intn(3); j > 0; j-- {
+			p.Ops = append(p.Ops, genOp(r, []int{25, 10, 25, 15, 5, 5, 10, 3, 2}))
+		}
+		sc.Tasks = append(sc.Tasks, p)
+	}
+	sc.RefFirst = false
+	sc.XidStart = 0
+	sc.Strategy = genStrategy(r, horizonOf(sc))
+}
+
 func genC14(seed uint64) *Scenario {
 	r := simrt.NewRNG(seed)
 	sc := &Scenario{Property: "C14", RunSeed: seed, Class: "concurrent"}
+	if freshChild {
+		genFirstUse(r, sc)
+		return sc
+	}
 	sc.XidStart = uint32(r.Intn(1 << 30))
 	if r.Chance(0.1) {
 		sc.XidStart = uint32(r.Intn(4)) // the value a fresh process starts from
+	}
+	if r.Chance(0.25) {
+		// homogeneous swarm: every task runs the same kind of operation (own seeds) a few times,
+		// so that many tasks are inside the same library code at the same moment
+		n := []int{3, 4, 8, 17, 24, 32, 48, 64}[r.Intn(8)]
+		tmpl := genOp(r, []int{10, 5, 35, 30, 5, 5, 5, 0, 0})
+		// few tasks hammering one operation many times (deep interleavings of a handful of
+		// steps, e.g. a lock-free structure) or many tasks doing it once or twice (many inside
+		// the same code at the same moment)
+		reps := 1 + r.Intn(2)
+		switch {
+		case n <= 4:
+			reps = 5 + r.Intn(26)
+		case n <= 8:
+			reps = 2 + r.Intn(7)
+		case n <= 24:
+			reps = 1 + r.Intn(3)
+		}
+		for i := 0; i < n; i++ {
+			var p TaskProg
+			for j := 0; j < reps; j++ {
+				op := tmpl
+				op.S = r.Uint64()
+				p.Ops = append(p.Ops, op)
+			}
+			sc.Tasks = append(sc.Tasks, p)
+		}
+		sc.Class = "homogeneous"
+		sc.RefFirst = r.Chance(0.3)
+		sc.Strategy = genStrategy(r, horizonOf(sc))
+		return sc
 	}
 	n := []int{2, 3, 4, 6, 8, 16, 32, 64}[r.Pick(25, 20, 15, 10, 10, 10, 6, 4)]
 	maxOps := 40
